@@ -12,6 +12,7 @@ import Driver.Lacon
 import Driver.Rfs
 import Driver.UStackEng
 import Driver.LedgerEng
+import Driver.CLuCheck
 
 def readAll (h : IO.FS.Stream) : IO String := do
   let mut acc := ""
@@ -36,6 +37,7 @@ def main (args : List String) : IO UInt32 := do
   | ["argcheck"] => Drv.argcheckMain (← readAll stdin)
   | ["fixup"] => Drv.fixupMain (← readAll stdin)
   | ["ustack", iw, dw] => Drv.ustackMain (← readAll stdin) (iw.toInt?.getD 4) (dw.toInt?.getD 8)
+  | ["clucheck"] => Drv.clucheckMain (← readAll stdin)
   | ["ledger"] => Drv.ledgerMain (← readAll stdin)
   | ["schedtrace"] => Drv.schedTraceMain (← readAll stdin)
   | ["schedexplore"] => Drv.schedExploreMain (← readAll stdin)
